@@ -1,9 +1,118 @@
 import NmVerif.Proto
+import NmVerif.Basic
+import NmVerif.Arr
+import NmVerif.Linalg
 namespace NmVerif.Driver.C16
-open NmVerif NmVerif.Proto
+open NmVerif NmVerif.Proto NmVerif.Linalg
 
-def handle : Handler := fun op _args =>
+/-- operand data of the harness (`c16::val`): `lin` a[k]=k+1, b[k]=2k+3; `mix` a small pseudo-random positive integer -/
+def val (mode : String) (operand k : Nat) : Int :=
+  if mode == "lin" then (if operand == 0 then (k : Int) + 1 else 2 * (k : Int) + 3)
+  else ((1 + ((k + 1 + 17 * operand) * 2654435761 % 4294967296) % 9973 : Nat) : Int)
+
+def leaf (mode : String) (operand : Nat) (s : Shape) : Idx → Int :=
+  fun i => val mode operand (computeOffset i (strides s))
+
+def fmtData (l : List String) : String := if l.isEmpty then "[]" else ",".intercalate l
+
+/-- answer for a result whose elements are sums over term lists -/
+def showSum (mode : String) (sa sb : Shape) (r : Option (Arr (List Term))) : String :=
+  match r with
+  | none => "nothing"
+  | some a =>
+    let A := leaf mode 0 sa
+    let B := leaf mode 1 sb
+    s!"ok shape={fmtNats a.shape} data={fmtData ((allIdx a.shape).map (fun d => toString (valueAt A B (a.get d))))} eval=same"
+
+/-- answer for a result whose elements are single products -/
+def showProd (mode : String) (sa sb : Shape) (r : Option (Arr Term)) : String :=
+  showSum mode sa sb (r.map (fun a => ⟨a.shape, fun d => [a.get d]⟩))
+
+/-- `view::matmul`: an element whose slicing is out of range prints `X`, and then `eval` dies too -/
+def showV1 (mode : String) (sa sb : Shape) (r : Option (Arr (Option (List Term)))) : String :=
+  match r with
+  | none => "nothing"
+  | some a =>
+    let A := leaf mode 0 sa
+    let B := leaf mode 1 sb
+    let es := (allIdx a.shape).map (fun d => a.get d)
+    let ev := if es.all Option.isSome then "same" else "crash"
+    s!"ok shape={fmtNats a.shape} data={fmtData (es.map (fun e => match e with | some ts => toString (valueAt A B ts) | none => "X"))} eval={ev}"
+
+def showTrace (mode : String) (s : Shape) (r : Option (Arr (List (Option Nat)))) : String :=
+  match r with
+  | none => "nothing"
+  | some a =>
+    let elems := (allIdx a.shape).map (fun d =>
+      let ts := a.get d
+      if ts.all Option.isSome then some ((ts.filterMap id).foldl (fun acc p => acc + val mode 0 p) (0 : Int)) else none)
+    let ev := if elems.all Option.isSome then "same" else "crash"
+    s!"ok shape={fmtNats a.shape} data={fmtData (elems.map (fun e => match e with | some v => toString v | none => "X"))} eval={ev}"
+
+def handle : Handler := fun op a =>
+  let mode := (a.get? "data").getD "mix"
   match op with
+  | "shape_matmul" => orBad do
+      let sa ← a.nats "a"
+      let sb ← a.nats "b"
+      match shapeMatmul sa sb with
+      | some s => pure s!"ok {fmtNats s}"
+      | none => pure "nothing"
+  | "matmul" => orBad do
+      let sa ← a.nats "a"
+      let sb ← a.nats "b"
+      match a.get? "impl" with
+      | some "v1" => pure (showV1 mode sa sb (matmulV1 sa sb))
+      | some "v2" => pure (showSum mode sa sb (matmulV2 sa sb))
+      | _ => none
+  | "matmul_helpers" => orBad do
+      let sa ← a.nats "a"
+      let sb ← a.nats "b"
+      pure s!"ok tile={fmtNats (matmulLhsTile sa sb)} axes={fmtNats (matmulRhsTranspose sb.length)} lhs_reshape={fmtNats (matmulLhsReshape sa sb)}"
+  | "dot" => orBad do
+      pure (showSum mode (← a.nats "a") (← a.nats "b") (dot (← a.nats "a") (← a.nats "b")))
+  | "inner" => orBad do
+      pure (showSum mode (← a.nats "a") (← a.nats "b") (inner (← a.nats "a") (← a.nats "b")))
+  | "outer" => orBad do
+      pure (showProd mode (← a.nats "a") (← a.nats "b") (outer (← a.nats "a") (← a.nats "b")))
+  | "vecdot" => orBad do
+      pure (showSum mode (← a.nats "a") (← a.nats "b") (vecdot (← a.nats "a") (← a.nats "b")))
+  | "kron" => orBad do
+      pure (showProd mode (← a.nats "a") (← a.nats "b") (kron (← a.nats "a") (← a.nats "b")))
+  | "tensordot" => orBad do
+      let sa ← a.nats "a"
+      let sb ← a.nats "b"
+      match a.get? "axes" with
+      | some _ => pure (showSum mode sa sb (tensordotInt sa sb (← a.nat "axes")))
+      | none => pure (showSum mode sa sb (tensordotAxes sa sb (← a.ints "la") (← a.ints "ra")))
+  | "trace" => orBad do
+      let s ← a.nats "a"
+      pure (showTrace mode s (trace s (← a.int "offset") (← a.int "axis1") (← a.int "axis2")))
+  | "dot_helpers" => orBad do
+      let sa ← a.nats "a"
+      let sb ← a.nats "b"
+      match dotLhsReshape sa sb with
+      | some r => pure s!"ok tile={fmtNats (dotLhsTile sa sb)} axes={fmtNats (dotRhsTranspose sb)} lhs_reshape={fmtNats r}"
+      | none => pure "crash:out_of_range"
+  | "inner_helpers" => orBad do
+      match innerLhsReshape (← a.nats "a") (← a.nats "b") with
+      | some r => pure s!"ok lhs_reshape={fmtNats r}"
+      | none => pure "crash:out_of_range"
+  | "kron_helpers" => orBad do
+      let sa ← a.nats "a"
+      let sb ← a.nats "b"
+      pure s!"ok axes={fmtNats (kronDstTranspose (sa.length + sb.length + 1) sa.length sb.length)} lhs_reshape={fmtNats (sa ++ List.replicate sb.length 1)} dst={fmtNats (kronDstReshape sa sb)}"
+  | "tensordot_helpers" => orBad do
+      let sa ← a.nats "a"
+      let sb ← a.nats "b"
+      match a.get? "axes" with
+      | some _ =>
+        let n ← a.nat "axes"
+        pure s!"ok lt={fmtNats (List.range sa.length)} rt={fmtNats (moveToEnd sb.length (List.range n))}"
+      | none =>
+        let la ← (← a.ints "la").mapM (normAxis · sa.length)
+        let ra ← (← a.ints "ra").mapM (normAxis · sb.length)
+        pure s!"ok lt={fmtNats (moveToEnd sa.length la)} rt={fmtNats (moveToEnd sb.length ra)}"
   | _ => none
 
 end NmVerif.Driver.C16
